@@ -93,6 +93,13 @@ QXmppTask<QXmpp::SendResult> QXmppClient::reply(QXmppStanza &&stanza, const std:
 extern "C" void vp_c08_empty_disco(QXmppDiscoveryIq *out) { new (out) QXmppDiscoveryIq; }
 static void keepHooks() { if (vp_c08_false()) vp_c08_empty_disco(nullptr); }
 
+// One instance covers all IQ types and from present/absent, but each combination runs on its own branch of a switch over a
+// nondeterministic selector: inside a branch type and shape are constants for symbolic execution (no merged pointers), the
+// solver still decides all branches in one query.  Distinct template instances keep the optimiser from merging the calls.
+#define DISPATCH12(f) do { unsigned c_ = vp_u8(); vp_assume(c_ < 12); switch (c_) { \
+    case 0: f<0>(); break; case 1: f<1>(); break; case 2: f<2>(); break; case 3: f<3>(); break; case 4: f<4>(); break; case 5: f<5>(); break; \
+    case 6: f<6>(); break; case 7: f<7>(); break; case 8: f<8>(); break; case 9: f<9>(); break; case 10: f<10>(); break; default: f<11>(); break; } } while (0)
+
 static void symOwnJid()
 {
     internAttrs();
@@ -103,12 +110,11 @@ static void symOwnJid()
 
 // ------------------------------------------------------------------------------------------------ (1) typed request helper
 // checkIsIqRequest: request <=> <iq> with type get or set; reports tag and namespace of the FIRST child element
-extern "C" void h_iqh_check()
+template<unsigned C> static void checkCase()
 {
-    internAttrs(); keepHooks();
     SymIq q;
-    const bool isIq = vp_bool();
-    symIq(q, true, 2, isIq ? L("iq") : L("message"));
+    const bool isIq = (C & 1);
+    symIq(q, C >> 1, true, 2, isIq ? L("iq") : L("message"));
     auto [isRequest, tagName, xmlns] = QXmpp::Private::checkIsIqRequest(q.iq);
     vp_assert(isRequest == (isIq && q.isRequest()), "C08 checkIsIqRequest: a request is exactly an <iq/> of type get or set");
     if (isRequest) {
@@ -118,15 +124,15 @@ extern "C" void h_iqh_check()
     }
     vp_assert(g_nsent == 0, "C08 checkIsIqRequest sends nothing");
 }
+extern "C" void h_iqh_check() { internAttrs(); keepHooks(); DISPATCH12(checkCase); }
 // sendIqReply: exactly one stanza, to = requester, id = request id, type result unless the handler made it an error
-extern "C" void h_iqh_reply()
+template<unsigned C> static void replyCase()
 {
-    internAttrs(); keepHooks();
+    const unsigned t = C >> 1;   // QXmppIq::Type: Error, Get, Set, Result
+    const bool withMeta = (C & 1);
     const QString id = vpSymString(C08_IDLEN), from = vpSymString(C08_FROMLEN);
-    unsigned t = vp_u8(); vp_assume(t <= 3);   // QXmppIq::Type: Error, Get, Set, Result
     QXmppIq iq; iq.setType(QXmppIq::Type(t));
     iq.setId(vpSymString(1)); iq.setTo(vpSymString(1));   // whatever the handler left there
-    const bool withMeta = vp_bool();
     std::optional<QXmppE2eeMetadata> meta;
     if (withMeta) meta.emplace();
     QXmpp::Private::sendIqReply(theClient(), id, from, meta, std::move(iq));
@@ -136,16 +142,23 @@ extern "C" void h_iqh_reply()
     vp_assert(a.tagName() == L("iq") && a.attribute(L("id")) == id && a.attribute(L("to")) == from, "C08 sendIqReply: reply is an iq with the request id, addressed to the requester");
     vp_assert(a.attribute(L("type")) == (t == QXmppIq::Error ? L("error") : L("result")), "C08 sendIqReply: type is result unless the handler returned an error iq");
 }
+extern "C" void h_iqh_reply()
+{
+    internAttrs(); keepHooks();
+    unsigned c = vp_u8(); vp_assume(c < 8);
+    switch (c) { case 0: replyCase<0>(); break; case 1: replyCase<1>(); break; case 2: replyCase<2>(); break; case 3: replyCase<3>(); break;
+                 case 4: replyCase<4>(); break; case 5: replyCase<5>(); break; case 6: replyCase<6>(); break; default: replyCase<7>(); break; }
+}
 // handleIqRequests<A, B> with a handler object: variant<Iq, Error> for A, plain Iq for B
 struct Handler {
     int calls = 0; int which = 0;
-    unsigned outcome;      // 0 result iq, 1 stanza error, 2 iq the handler already marked as error
+    unsigned outcome;      // 0 result iq (left at the default type 'get' or marked 'result'), 1 stanza error, 2 iq the handler already marked as error
     std::variant<QXmppVersionIq, QXmppStanza::Error> handleIq(QXmppVersionIq &&)
     {
         calls++; which = 1;
         if (outcome == 1) return QXmppStanza::Error(QXmppStanza::Error::Cancel, QXmppStanza::Error::BadRequest, QString());
         QXmppVersionIq r;
-        r.setType(outcome == 2 ? QXmppIq::Error : (vp_bool() ? QXmppIq::Get : QXmppIq::Result));   // default-constructed iqs are 'get': must still go out as result
+        r.setType(outcome == 2 ? QXmppIq::Error : QXmppIq::Get);   // default-constructed iqs are 'get': must still go out as result
         return r;
     }
     QXmppEntityTimeIq handleIq(QXmppEntityTimeIq &&)
@@ -156,28 +169,32 @@ struct Handler {
         return r;
     }
 };
-extern "C" void h_iqh_handle()
-{
-    internAttrs(); keepHooks();
-    SymIq q; symIq(q, true, 2);
-    Handler h; h.outcome = vp_u8(); vp_assume(h.outcome <= 2);
-    const bool r = QXmpp::handleIqRequests<QXmppVersionIq, QXmppEntityTimeIq>(q.iq, theClient(), &h);
-    const bool isVersion = q.firstIs(TAG_QUERY, NS_VERSION), isTime = q.firstIs(TAG_TIME, NS_TIME);
-    const bool expect = q.isRequest() && (isVersion || isTime);
-    vp_assert(r == expect, "C08 handleIqRequests accepts exactly the get/set iqs whose first child is one of its payload types");
-    vp_assert(h.calls == (expect ? 1 : 0), "C08 handleIqRequests invokes the handler exactly once for an accepted request, never otherwise");
-    vp_assert(g_nsent == (expect ? 1 : 0), "C08 handleIqRequests sends exactly one reply iff it returns true");
-    if (expect && g_nsent == 1) {
-        vp_assert(h.which == (isVersion ? 1 : 2), "C08 handleIqRequests dispatches on the payload type");
-        checkReply(0, q);
-        vp_assert(replyIsError(0) == (h.outcome != 0), "C08 handleIqRequests: error reply iff the handler returned an error");
-        vp_assert(!g_replyHadMeta, "C08 an unencrypted request is answered without e2ee metadata");
+template<unsigned OUTCOME> struct HandleCase {
+    template<unsigned C> static void run()
+    {
+        SymIq q; symIq(q, C >> 1, C & 1, 2);
+        Handler h; h.outcome = OUTCOME;
+        const bool r = QXmpp::handleIqRequests<QXmppVersionIq, QXmppEntityTimeIq>(q.iq, theClient(), &h);
+        const bool isVersion = q.firstIs(TAG_QUERY, NS_VERSION), isTime = q.firstIs(TAG_TIME, NS_TIME);
+        const bool expect = q.isRequest() && (isVersion || isTime);
+        vp_assert(r == expect, "C08 handleIqRequests accepts exactly the get/set iqs whose first child is one of its payload types");
+        vp_assert(h.calls == (expect ? 1 : 0), "C08 handleIqRequests invokes the handler exactly once for an accepted request, never otherwise");
+        vp_assert(g_nsent == (expect ? 1 : 0), "C08 handleIqRequests sends exactly one reply iff it returns true");
+        if (expect && g_nsent == 1) {
+            vp_assert(h.which == (isVersion ? 1 : 2), "C08 handleIqRequests dispatches on the payload type");
+            checkReply(0, q);
+            vp_assert(replyIsError(0) == (OUTCOME != 0 && !(OUTCOME == 1 && isTime)), "C08 handleIqRequests: error reply iff the handler returned an error");
+            vp_assert(!g_replyHadMeta, "C08 an unencrypted request is answered without e2ee metadata");
+        }
     }
-}
+};
+extern "C" void h_iqh_handle_result() { internAttrs(); keepHooks(); DISPATCH12(HandleCase<0>::template run); }
+extern "C" void h_iqh_handle_error() { internAttrs(); keepHooks(); DISPATCH12(HandleCase<1>::template run); }
+extern "C" void h_iqh_handle_erroriq() { internAttrs(); keepHooks(); DISPATCH12(HandleCase<2>::template run); }
 
 // ------------------------------------------------------------------------------------------------ (3) real managers
-// contract of an extension towards the chain (see h_client.cpp); `claimed`: must the manager return true for this request?
-static void checkContract(const SymIq &q, bool r, const char *)
+// contract of an extension towards the chain (see h_client.cpp)
+static void checkContract(const SymIq &q, bool r)
 {
     vp_assert(g_nsent <= 1, "C08 a manager sends at most one stanza for one incoming iq");
     if (!q.isRequest()) {
@@ -196,61 +213,61 @@ template<typename M> struct Raw {
     M *operator->() { return raw.p(); }
 };
 
-extern "C" void h_mgr_version()
+template<unsigned C> static void versionCase()
 {
-    symOwnJid();
     Raw<QXmppVersionManager> m;
     auto *d = new QXmppVersionManagerPrivate; d->clientName = vpSymString(1); d->clientVersion = vpSymString(1); d->clientOs = vpSymString(1);
     m.setD(d);
-    SymIq q; symIq(q, vp_case_bool(3), 2);
+    SymIq q; symIq(q, C >> 1, C & 1, 2);
     const bool r = m->QXmppVersionManager::handleStanza(q.iq);
-    checkContract(q, r, "version");
+    checkContract(q, r);
     if (q.isRequest()) vp_assert(r == q.firstIs(TAG_QUERY, NS_VERSION), "C08 the version manager claims exactly the jabber:iq:version requests");
-    if (q.isRequest() && r && g_nsent == 1) vp_assert(!replyIsError(0) || q.ty == TY_SET, "C08 a version get is answered with a result");
+    if (q.isRequest() && r && g_nsent == 1) vp_assert(!replyIsError(0), "C08 a version request is answered with a result");
 }
-extern "C" void h_mgr_time()
+extern "C" void h_mgr_version() { symOwnJid(); DISPATCH12(versionCase); }
+template<unsigned C> static void timeCase()
 {
-    symOwnJid();
     Raw<QXmppEntityTimeManager> m;
-    SymIq q; symIq(q, vp_case_bool(3), 2);
+    SymIq q; symIq(q, C >> 1, C & 1, 2);
     const bool r = m->QXmppEntityTimeManager::handleStanza(q.iq);
-    checkContract(q, r, "time");
+    checkContract(q, r);
     if (q.isRequest()) vp_assert(r == q.firstIs(TAG_TIME, NS_TIME), "C08 the entity time manager claims exactly the urn:xmpp:time requests");
     if (q.isRequest() && r && g_nsent == 1) vp_assert(replyIsError(0) == (q.ty == TY_SET), "C08 entity time: get is answered with a result, set with an error");
 }
-extern "C" void h_mgr_disco()
+extern "C" void h_mgr_time() { symOwnJid(); DISPATCH12(timeCase); }
+template<unsigned C> static void discoCase()
 {
-    symOwnJid();
     Raw<QXmppDiscoveryManager> m;
     auto *d = new QXmppDiscoveryManagerPrivate; d->clientCapabilitiesNode = vpSymString(1);
     m.setD(d);
-    SymIq q; symIq(q, vp_case_bool(3), 2);
+    SymIq q; symIq(q, C >> 1, C & 1, 2);
     // node attribute of the query (decides item-not-found)
-    if (q.nch >= 1) { QDomElement c; vp_c08_dom_child(&c, &q.iq, 0); attr(c, L("node"), vpSymString(1)); }
+    { QDomElement c; vp_c08_dom_child(&c, &q.iq, 0); if (!c.isNull()) attr(c, L("node"), vpSymString(1)); }
     const bool r = m->QXmppDiscoveryManager::handleStanza(q.iq);
-    checkContract(q, r, "disco");
+    checkContract(q, r);
     if (q.isRequest()) vp_assert(r == (q.firstIs(TAG_QUERY, NS_DISCO_INFO) || q.firstIs(TAG_QUERY, NS_DISCO_ITEMS)), "C08 the discovery manager claims exactly the disco#info / disco#items requests");
 }
-extern "C" void h_mgr_vcard()
+extern "C" void h_mgr_disco() { symOwnJid(); DISPATCH12(discoCase); }
+template<unsigned C> static void vcardCase()
 {
-    symOwnJid();
     Raw<QXmppVCardManager> m;
     m.setD(new QXmppVCardManagerPrivate);
-    SymIq q; symIq(q, vp_case_bool(3), 2);
+    SymIq q; symIq(q, C >> 1, C & 1, 2);
 #ifdef KF_vcard_request_swallowed
     vp_assume(!(q.isRequest() && q.firstIs(TAG_VCARD, NS_VCARD)));
 #endif
     const bool r = m->QXmppVCardManager::handleStanza(q.iq);
-    checkContract(q, r, "vcard");
+    checkContract(q, r);
 }
-extern "C" void h_mgr_roster()
+extern "C" void h_mgr_vcard() { symOwnJid(); DISPATCH12(vcardCase); }
+template<unsigned C> static void rosterCase()
 {
-    symOwnJid();
     Raw<QXmppRosterManager> m;     // private data stays raw: roster IQs without <item/> never touch it (items are C12's subject)
-    SymIq q; symIq(q, vp_case_bool(3), 2);
+    SymIq q; symIq(q, C >> 1, C & 1, 2);
 #ifdef KF_roster_get_swallowed
     vp_assume(!(q.ty == TY_GET && q.firstIs(TAG_QUERY, NS_ROSTER)));
 #endif
     const bool r = m->QXmppRosterManager::handleStanza(q.iq);
-    checkContract(q, r, "roster");
+    checkContract(q, r);
 }
+extern "C" void h_mgr_roster() { symOwnJid(); DISPATCH12(rosterCase); }
